@@ -267,6 +267,15 @@ func runC01(p *core.Prog, r *core.Report, tier string) {
 		r.Floor("C01.k account collections in the attester", nAcc, 1)
 	}
 
+	// ---- (l) every access to the per-epoch attested sets is made under their mutex — also the "is there a set for this
+	// epoch yet" test: two first runs of an epoch that both see "no set" create it twice, and the second creation throws
+	// away what the first run has marked ----
+	{
+		nAtt := checkFieldsUnderMutex(p, r, core.NewLockAnalysis(p), "C01.l", attRel, []string{"attested"}, "attestedMu",
+			"a run that overlaps this access can lose or miss a mark, so a validator is signed for twice in the epoch")
+		r.Floor("C01.l accesses to the attested sets", nAtt, 4)
+	}
+
 	// the chain of functions from the sign site up to the entry (Attest)
 	chain := callChain(p, signFn, signSite.(ssa.Instruction), 4)
 	entry := chain[len(chain)-1]
